@@ -55,7 +55,7 @@ func c11Cases(quick bool) []EnumCase {
 				continue
 			}
 			rec(f, nil, func(fs []string) {
-				for _, in := range []string{"none", "duplicate", "unlock", "waiter-behind", "demote"} {
+				for _, in := range []string{"none", "duplicate", "unlock", "waiter-behind", "demote", "quit-leader"} {
 					for _, val := range []bool{false, true} {
 						for _, q := range []bool{false, true} {
 							if quick && f == 2 && (val != q) {
@@ -155,6 +155,9 @@ func evalC11(c *Ctx, cs EnumCase) EnumResult {
 		if k.Interf == "demote" {
 			leader.Poke("demote", "")
 		}
+		if k.Interf == "quit-leader" {
+			leader.Poke("quitleader")
+		}
 		vrt.AdvanceTo(t0 + 1500*ms)
 		for i, f := range k.Fates {
 			if f == "late" {
@@ -207,6 +210,11 @@ func evalC11(c *Ctx, cs EnumCase) EnumResult {
 		// acknowledgements do arrive the request may still succeed (the record is logged and acknowledged),
 		// so both outcomes are accepted there
 		either := k.Interf == "demote" && waitingAt200 && expectOK
+		if k.Interf == "quit-leader" && waitingAt200 {
+			// the node leaves the leader role first and sweeps its pending acknowledgement waits afterwards:
+			// leadership is lost, the requester must get an error whatever arrives later
+			expectOK = false
+		}
 		if len(mine) != 1 {
 			add("not-exactly-one-reply", fmt.Sprintf("the ack-required request got %d terminal replies %s", len(mine), binStr(mine)))
 			return
@@ -236,7 +244,7 @@ func evalC11(c *Ctx, cs EnumCase) EnumResult {
 			if hasHold {
 				add("hold-left-after-failure", fmt.Sprintf("answered %s but LockId 1 still holds the key: %s", hapi.ResultName(got.Result), holds))
 			}
-			if k.Value && !bytes.Equal(value, []byte("before")) && k.Interf != "demote" {
+			if k.Value && !bytes.Equal(value, []byte("before")) && k.Interf != "demote" && k.Interf != "quit-leader" {
 				add("value-not-restored", fmt.Sprintf("answered %s but the key carries %q instead of the value from before the request (\"before\")", hapi.ResultName(got.Result), value))
 			}
 			if k.Interf == "waiter-behind" {
